@@ -11,6 +11,14 @@ Two observation channels, both without touching /repo:
   lian.basics, lian.core, lian.taint, lian.common_structs): one counter per package = the number of Python
   function activations, a catch-all measure of work that also sees loops the explicit wrappers do not know.
 
+Constant folding is observed at three places, whichever the tree under test has: ``util.strict_eval`` (text
+evaluation, old trees and the frontends), ``const_fold.fold_constants`` (every fold attempt: operand sizes, size of
+every value produced) and the entries of ``const_fold.FOLD_OPERATORS`` (the moment lian has DECIDED to compute: the
+size of the result is predicted from the decoded operands with a lower estimate, for both operand orders, before the
+real operator runs, so a swallowed MemoryError or a child that never comes back still leaves the witness).  The
+bound these sizes are compared with is read from lian's own ``config.MAX_FOLDED_CONSTANT_BITS``.  The largest
+constant stored in the P2 / P3 state spaces and the peak RSS of the child are recorded as well.
+
 A snapshot of all counters is appended to a JSON-lines file every ``interval`` seconds (SIGALRM handler, runs
 between two byte codes of the analysing thread) so that a child that has to be killed still leaves its counter
 time series behind.  If ``limits`` is given every increment is compared with the counter's envelope and the child
@@ -113,6 +121,62 @@ def predict_bits(content):
     return max(ba, bb), op
 
 
+OP_NAMES = {"*": "Mult", "**": "Pow", "<<": "LShift", ">>": "RShift", "+": "Add", "-": "Sub", "/": "Div", "//": "FloorDiv",
+            "%": "Mod", "&": "And", "|": "Or", "^": "Xor"}
+
+
+def shape_of(v):
+    return "bool" if isinstance(v, bool) else type(v).__name__
+
+
+def predict_lower_bits(op, left, right):
+    """LOWER estimate (bits, in the metric of _bits) of `left <op> right` on decoded operands, without computing it.
+    Never larger than the true size + 1, so a tree that bounds the true size by B never enters a computation whose
+    estimate exceeds B.  Both operand orders of the asymmetric operators are covered."""
+    try:
+        isint = lambda v: isinstance(v, int) and not isinstance(v, bool)
+        isstr = lambda v: isinstance(v, (str, bytes))
+        islist = lambda v: isinstance(v, (list, tuple))
+        if op == "*":
+            for a, b in ((left, right), (right, left)):
+                if (isstr(a) or islist(a)) and isinstance(b, int):
+                    return max(0, _bits(a) * int(b))
+            if isint(left) and isint(right):
+                return max(0, left.bit_length() + right.bit_length() - 1)
+            return 1
+        if op == "**":
+            if isint(left) and isint(right) and right > 0 and left not in (0, 1, -1):
+                return (abs(left).bit_length() - 1) * right
+            return 1
+        if op == "<<":
+            if isint(left) and isint(right) and right > 0 and left != 0:
+                return left.bit_length() + right
+            return 1
+        if op == "+":
+            if (isstr(left) and isstr(right)) or (islist(left) and islist(right)):
+                return _bits(left) + _bits(right)
+            return 1
+    except Exception:
+        pass
+    return 1
+
+
+def _short(v, n=40):
+    try:
+        t = repr(v)
+    except Exception:
+        t = "<%s>" % type(v).__name__
+    return t if len(t) <= n else t[:n - 12] + "...(%d chars)" % len(t)
+
+
+def _maxrss_kb():
+    try:
+        import resource
+        return resource.getrusage(resource.RUSAGE_SELF).ru_maxrss
+    except Exception:
+        return 0
+
+
 class WorkCount:
     def __init__(self):
         self.c = {}
@@ -125,6 +189,7 @@ class WorkCount:
         self.aborted = None
         self.snapshots = 0
         self._sysmon = []          # (name, [count])
+        self.info = {}             # non-counter facts (fold bound read from lian's config, largest stored constant ...)
 
     def abort(self, k, v):
         """Counter k crossed its envelope: leave the witness behind and end the child."""
@@ -141,6 +206,7 @@ class WorkCount:
         d = dict(self.c)
         for name, box in self._sysmon:
             d[name] = box[0]
+        d["maxrss_kb"] = _maxrss_kb()
         return d
 
     # ---- periodic dump / in-child envelope -----------------------------------------------------------
@@ -499,6 +565,88 @@ def install(dump_path=None, interval=2.0, limits=None, sysmon=True):
 
     U.strict_eval = strict_eval
 
+    # ---- constant folding on decoded values (lian.util.const_fold) -----------------------------------------
+    try:
+        from lian.config import config as CFG
+        bound = int(getattr(CFG, "MAX_FOLDED_CONSTANT_BITS", 0) or 0)
+    except Exception:
+        bound = 0
+    wc.info["fold_bound_bits"] = bound
+    wc.info["fold_hooks"] = []
+    witness_from = bound if bound > 0 else 100000
+    try:
+        from lian.util import const_fold as CF
+    except Exception:
+        CF = None
+
+    if CF is not None and callable(getattr(CF, "fold_constants", None)):
+        o_fold = CF.fold_constants
+        wc.info["fold_hooks"].append("fold_constants")
+
+        def fold_constants(value1, data_type1, op, value2, data_type2, *a, **k):
+            inc("fold_attempts", 1)
+            ob = _bits(value1) + _bits(value2)
+            inc("fold_operand_bytes", (ob + 7) // 8)
+            mx("fold_max_operand_bits", ob)
+            r0 = _maxrss_kb()
+            r = o_fold(value1, data_type1, op, value2, data_type2, *a, **k)
+            jump = _maxrss_kb() - r0
+            if jump > 0:
+                mx("fold_max_rss_jump_kb", jump)
+            if r is not None:
+                inc("fold_results", 1)
+                try:
+                    rb = _bits(r[0])
+                except Exception:
+                    rb = 64
+                inc("fold_result_bits", rb)
+                if rb > witness_from and len(wc.evals) < 8 and not any(e.get("result_bits") == rb for e in wc.evals):
+                    wc.evals.append({"text": f"{_short(value1)} {op} {_short(value2)}", "op": OP_NAMES.get(op, str(op)),
+                                     "shape": f"{data_type1},{data_type2}", "predicted_bits": rb, "result_bits": rb,
+                                     "evaluated": True, "bound": bound, "via": "fold_constants"})
+                mx("fold_max_result_bits", rb)
+            return r
+
+        CF.fold_constants = fold_constants
+
+    ops = getattr(CF, "FOLD_OPERATORS", None) if CF is not None else None
+    if isinstance(ops, dict):
+        wc.info["fold_hooks"].append("FOLD_OPERATORS")
+
+        def make(sym, fn):
+            def compute(left, right):
+                inc("fold_computes", 1)
+                pb = predict_lower_bits(sym, left, right)
+                rec = None
+                if pb > witness_from:
+                    rec = {"text": f"{_short(left)} {sym} {_short(right)}", "op": OP_NAMES.get(sym, str(sym)),
+                           "shape": f"{shape_of(left)}{sym}{shape_of(right)}", "predicted_bits": pb, "entered": True,
+                           "evaluated": False, "bound": bound, "via": "FOLD_OPERATORS"}
+                    wc.eval_pending = rec
+                    if len(wc.evals) < 8:
+                        wc.evals.append(rec)
+                    wc.dump(note="lian decided to compute a constant whose size exceeds its own bound")
+                mx("fold_max_compute_bits", pb)        # with a limit the child ends here, before the allocation
+                t = time.time()
+                try:
+                    v = fn(left, right)
+                except BaseException as e:
+                    if rec is not None:
+                        rec["raised"] = type(e).__name__
+                        rec["wall_s"] = round(time.time() - t, 3)
+                    wc.eval_pending = None
+                    raise
+                wc.eval_pending = None
+                if rec is not None:
+                    rec["evaluated"] = True
+                    rec["result_bits"] = _bits(v)
+                    rec["wall_s"] = round(time.time() - t, 3)
+                return v
+            return compute
+
+        for sym, fn in list(ops.items()):
+            ops[sym] = make(sym, fn)
+
     # ---- state space, SFG, call paths -----------------------------------------------------------------
     o_space_add = CS.SymbolStateSpace.add
 
@@ -530,7 +678,24 @@ def install(dump_path=None, interval=2.0, limits=None, sysmon=True):
             pass
         return o_save_sfg(self, method_id, graph)
 
+    def largest_constant(space):
+        m, w = 0, None
+        for item in space:
+            v = getattr(item, "value", None)
+            if isinstance(v, (str, bytes, int)) and not isinstance(v, bool):
+                b = _bits(v)
+                if b > m:
+                    m, w = b, v
+        return m, w
+
     def save_space(self, method_id, space):
+        try:
+            m, w = largest_constant(space)
+            if m > c.get("p3_max_const_bits", 0):
+                wc.info["p3_largest_constant"] = _short(w, 60)
+            mx("p3_max_const_bits", m)
+        except Exception:
+            pass
         try:
             L = len(space)
             inc("p3_space_len", L)
@@ -553,6 +718,19 @@ def install(dump_path=None, interval=2.0, limits=None, sysmon=True):
             pass
         return o_save_paths(self, paths)
 
+    o_save_space_p2 = Loader.save_symbol_state_space_p2
+
+    def save_space_p2(self, method_id, space):
+        try:
+            m, w = largest_constant(space)
+            if m > c.get("p2_max_const_bits", 0):
+                wc.info["p2_largest_constant"] = _short(w, 60)
+            mx("p2_max_const_bits", m)
+        except Exception:
+            pass
+        return o_save_space_p2(self, method_id, space)
+
+    Loader.save_symbol_state_space_p2 = save_space_p2
     Loader.save_global_sfg_by_entry_point = save_sfg
     Loader.save_symbol_state_space_p3 = save_space
     Loader.save_call_paths_p3 = save_paths
